@@ -480,3 +480,5 @@ def run(F, rep, tier):
     c06_codec.compile_errors_propagate(F, rep, core)
     c06_codec.discriminant_tables(F, rep, core)
     c06_codec.panicking_kind_ladders(F, rep, core)
+    from rules.c07_fields import run_const_fields
+    run_const_fields(F, rep, "mech_core.lib", "C06-R17")
